@@ -751,6 +751,8 @@ class Judge:
     def s_restart(self, st, ob, rest):
         stp, sta = ob.get("stop") or {}, ob.get("start") or {}
         if not sta.get("started"):
+            if sta.get("bind_failure"):
+                raise Inconclusive("the restart lost its port to another process on each of %s attempts (address already in use)" % sta.get("attempts", "?"))
             raise Inconclusive("the server did not come up again: " + (sta.get("start_err") or "")[-300:])
         if stp.get("hung") or stp.get("exit_code") != 0:
             raise Inconclusive("the server did not shut down cleanly (exit %s %s): C11's business" % (stp.get("exit_code"), stp.get("killed_by", "")))
@@ -781,6 +783,8 @@ def judge(o):
     if o.get("harness_err"):
         return "unjudged:driver: " + o["harness_err"][:300], {}, None
     if not (o.get("start") or {}).get("started"):
+        if (o.get("start") or {}).get("bind_failure"):
+            return "unjudged:a port was taken by another process on each of %s attempts: address already in use" % (o.get("start") or {}).get("attempts", "?"), {}, None
         return "unjudged:the server did not start: " + ((o.get("start") or {}).get("start_err") or "")[-400:], {}, None
     j = Judge(o)
     raw = j.run()
